@@ -27,6 +27,7 @@ import YalafiVerif.Properties.PlainMix2Stmt
 import YalafiVerif.Properties.PlainMix3Stmt
 import YalafiVerif.Properties.PlainParaStmt
 import YalafiVerif.Properties.PlainParEnvStmt
+import YalafiVerif.Properties.PlainParaMix3Stmt
 namespace Yalafi
 
 theorem C05_scanSpace_kind (start : Nat) (rest : Str) :
